@@ -12,6 +12,7 @@ import GojaModel.C13.BridgeLemmas
 import GojaModel.C13.ExportLemmas
 import GojaModel.C13.MapModel
 import GojaModel.C13.GatewayLemmas
+import GojaModel.C13.Cache2Lemmas
 
 namespace GojaModel.C13
 
@@ -454,6 +455,65 @@ theorem export_cache_monotone (js : Nat → JFields) (fuel : Nat) (c : ECtx) (v 
     have : c.cache[a]? = none := List.getElem?_eq_none (by omega)
     rw [this] at h; cases h
   rw [hsuf, List.getElem?_append_left hlt]; exact h
+
+/-! ### the two-level identity cache (untyped entry + per-type items) of one ExportTo -/
+
+/-- ONE IDENTITY PER (OBJECT, DESTINATION TYPE), whatever the visit order.  Once an object has been exported through
+    some path — untyped (`put`: get afterwards answers it) or to a Go type `ty` (`putTyped`) — that binding survives
+    ANY later sequence of cache writes of the same export (untyped and typed visits of this and of other objects, for
+    any other types, in any order and number): every later visit through the same kind of destination gets the same
+    Go value.  The hypothesis `leaves` is what the export code guarantees: a binding is written only after the
+    corresponding get / getTyped missed, so (key, ty) is never bound twice. -/
+theorem cache_binding_survives_all_visits (c : C2) (key ty v : Nat) (ops : List COp)
+    (h : c.getTyped key ty = some v) (hl : ∀ op ∈ ops, op.leaves key ty c.et = true) :
+    (c.run ops).getTyped key ty = some v :=
+  binding_stable_run key ty v ops c h hl
+
+/-- the untyped path: after `put key v`, `get key` is `v`, and stays `v` however many typed visits (putTyped of any
+    other type, on any object) and untyped visits of other objects intervene — untyped → typed → … → untyped reaches
+    the SAME Go map/slice. -/
+theorem untyped_identity_survives_typed_visits (c : C2) (key v : Nat) (ops : List COp)
+    (hfresh : c.get key = none)
+    (hl : ∀ op ∈ ops, op.leaves key (c.et key) c.et = true) :
+    ((c.put key v).run ops).get key = some v := by
+  have het : (c.put key v).et = c.et := step_et c (.put key v)
+  have h0 : (c.put key v).getTyped key (c.et key) = some v := by
+    rw [C2.get_eq_getTyped] at hfresh
+    unfold C2.put
+    cases hc : c.cache key with
+    | none => simp [getTyped_setCache]
+    | some e =>
+      cases e with
+      | raw old => simp [C2.getTyped, hc] at hfresh
+      | items tbl => simp [getTyped_setCache, tblGet_cons]
+  rw [C2.get_eq_getTyped]
+  have hrun : ((c.put key v).run ops).et = c.et := by
+    have : ∀ (ops : List COp) (d : C2), (d.run ops).et = d.et := by
+      intro ops; induction ops with
+      | nil => intro d; rfl
+      | cons op ops ih => intro d; simp only [C2.run]; rw [ih, step_et]
+    rw [this, het]
+  rw [hrun]
+  exact binding_stable_run key (c.et key) v ops (c.put key v) h0 (by rw [het]; exact hl)
+
+/-- and the typed path symmetrically: typed → untyped → typed -/
+theorem typed_identity_survives_untyped_visits (c : C2) (key ty v : Nat) (ops : List COp)
+    (hl : ∀ op ∈ ops, op.leaves key ty c.et = true) :
+    ((c.putTyped key ty v).run ops).getTyped key ty = some v := by
+  have het : (c.putTyped key ty v).et = c.et := step_et c (.putTyped key ty v)
+  have h0 : (c.putTyped key ty v).getTyped key ty = some v := by
+    unfold C2.putTyped
+    cases hc : c.cache key with
+    | none => simp [getTyped_setCache, tblGet_cons]
+    | some e => cases e <;> simp [getTyped_setCache, tblGet_cons]
+  exact binding_stable_run key ty v ops (c.putTyped key ty v) h0 (by rw [het]; exact hl)
+
+/-- Regression record of the seeded mutant C13-m2 (putTyped drops an earlier untyped entry when upgrading it to a
+    per-type table): untyped → typed → untyped loses the identity, the coded putTyped keeps it. -/
+theorem putTyped_dropping_raw_prefix_witness :
+    let c0 : C2 := { et := fun _ => 0, cache := fun _ => none }
+    ((c0.put 7 5).putTypedDropsRaw 7 1 6).get 7 = none ∧ ((c0.put 7 5).putTyped 7 1 6).get 7 = some 5 := by
+  decide
 
 /-! ### non-vacuity (tests on literals, not proofs of the property) -/
 
